@@ -403,6 +403,9 @@ pub fn check(cfg: &CheckCfg) -> i32 {
                 if r.variants.is_empty() {
                     r.ops.truncate(at_op + 1);
                 }
+                if known_alias_cycle(&mut agg, &findings, &r, "never returns") {
+                    continue;
+                }
                 let r = minimize_isolated(&r, true);
                 let v = Violation { property: "C04".into(), class: class.clone(), detail: json!({"stalled_at_op": at_op, "limit_s": 60}), op_index: at_op };
                 agg.violations.entry(("C04".into(), class)).or_insert((idx, v.clone()));
@@ -415,6 +418,9 @@ pub fn check(cfg: &CheckCfg) -> i32 {
                 let mut r = run.clone();
                 if r.variants.is_empty() {
                     r.ops.truncate(at_op + 1);
+                }
+                if known_alias_cycle(&mut agg, &findings, &r, "overflows the stack") {
+                    continue;
                 }
                 let r = minimize_isolated(&r, false);
                 let v = Violation { property: "C04".into(), class: class.clone(), detail: json!({"crashed_at_op": at_op, "status": status}), op_index: at_op };
@@ -569,6 +575,23 @@ pub fn check(cfg: &CheckCfg) -> i32 {
         return 1;
     }
     0
+}
+
+/// KF-C04-4 is identified by the input: the file system at the stalled / crashing build
+/// contains a type-alias cycle with no type constructor in between.
+fn known_alias_cycle(agg: &mut Agg, findings: &[KnownFinding], r: &Run, how: &str) -> bool {
+    let Some(k) = findings.iter().find(|k| k.status == "open" && k.property == "C04" && k.signature.get("kind").and_then(|x| x.as_str()) == Some("noncontractive-alias-cycle")) else { return false };
+    let fs = crate::exec::final_fs(r);
+    match crate::edits::noncontractive_alias_cycle(&fs) {
+        Some((file, name)) => {
+            let line = format!("KNOWN-FINDING: property=C04 build {} on a project with the constructor-free type-alias cycle through {}::{} [{}]", how, file, name, k.id);
+            agg.kf_lines.entry(k.id.clone()).or_insert((line, 0)).1 += 1;
+            *agg.stats.known_findings.entry(k.id.clone()).or_insert(0) += 1;
+            agg.results += 1;
+            true
+        }
+        None => false,
+    }
 }
 
 static SPECIAL: Mutex<Vec<(u64, Run, Violation)>> = Mutex::new(vec![]);
